@@ -509,3 +509,64 @@ def fixed_length(ctx, config="all"):
     rep.analysed = {"build_config": config, "length_evaluations": n}
     rep.floor("length_evaluations", n, 2 * len(ctx.cfgs()) if config.startswith("all") else 0)
     return rep
+
+
+def slice_length(ctx, config="all"):
+    """R-GUARD/slice-length: try_from_{be,le}_slice can return Some only for a slice of at most BYTES bytes.
+
+    Interval interpretation per configuration: at every point where the result is set to anything but a literal None
+    (a Some aggregate, or the result of a helper call), the interval of the input slice's length has an upper bound
+    <= BYTES.  How the length is tested, and where, is not prescribed."""
+    from . import total_rule
+    rep = Report("R-GUARD/slice-length", "try_from_be_slice / try_from_le_slice produce a non-None result only where the "
+                 "input slice is known to be at most BYTES long, in every configuration (interval of the slice length "
+                 "where the result is built): an over-long slice is None even when its excess bytes are zero")
+    prog = ctx.prog(config)
+    T = total_rule.totality(ctx, config)
+    bytes_cfg = prog.const_cfg.get(ir.BYTES_CONST, {})
+    n = 0
+    for e in ("be", "le"):
+        k = "crate::bytes::<impl %s>::try_from_%s_slice" % (U, e)
+        b = prog.bodies.get(k)
+        if b is None:
+            rep.violation("missing:try_from_%s_slice" % e, "", "not found")
+            continue
+        where = "%s:%s" % (b["file"], b["line"])
+        bad = None
+        for cfg in ctx.cfgs():
+            want = bytes_cfg.get(cfg)
+            if want is None:
+                continue
+            a = T.ai(k, cfg)
+            v = a.v
+            for bi in sorted(a.entry):
+                st0 = a.entry[bi].copy()
+                sites = []
+                for s in v.blocks[bi]["stmts"]:
+                    if s["s"] == "assign" and s["pl"]["l"] == 0 and not s["pl"]["p"]:
+                        rv = s["rv"]
+                        if not (rv["r"] == "agg" and rv.get("variant") == "None"):
+                            sites.append(st0.copy())
+                    if s["s"] == "assign":
+                        a.assign(st0, s)
+                t = v.blocks[bi]["term"]
+                if t["t"] == "call" and t["dest"]["l"] == 0 and not t["dest"]["p"]:
+                    sites.append(st0)
+                for st in sites:
+                    n += 1
+                    lk = a.len_key(1, st)
+                    iv = None
+                    if lk is not None:
+                        iv = (lk[1], lk[1]) if lk[0] == "const" else a.get(st, lk)
+                    if iv is None or iv[1] > want:
+                        bad = bad or (cfg, iv, want, v.where(bi))
+        if bad:
+            cfg, iv, want, w = bad
+            rep.violation("try_from_%s_slice|length" % e, where, "a non-None result is built at %s where the slice can be %s "
+                          "bytes long and BYTES is %d (configuration (%d,%d)): an over-long slice is accepted" % (
+                              w, ("[%d, %d]" % iv) if iv else "of unknown length", want, cfg[0], cfg[1]))
+        else:
+            rep.ok("try_from_%s_slice|length" % e, where, "every non-None result is built with len <= BYTES")
+    rep.analysed = {"build_config": config, "result_sites_evaluated": n}
+    rep.floor("result_sites_evaluated", n, 2 * len(ctx.cfgs()))
+    return rep
